@@ -47,14 +47,20 @@ def check_emptyiter(facts):
             rv = symex.show(p.ret)
             if not (rv.startswith("None") or rv.startswith("Fail")):
                 continue
-            gs = [(symex.show(g), v) for g, v in p.guards]
-            has_eq = any(("entry ==" in g or "== " in g and ".entry" in g) and v is True for g, v in gs)
-            has_gt = any(".iters >" in g and "min_iters" in g and "=" not in g.split(".iters >")[1][:2] and v is True for g, v in gs)
+            gs = symex.cguards(p)  # canonical: only `<` / `==`, negations folded into the polarity
+
+            def is_eq(g, v):
+                return "==" in g and ".entry" in g and v is True
+
+            def is_gt(g, v):
+                # iters > min_iters, in canonical form `min_iters < ..iters` taken
+                m = re.match(r"^(.*) < (.*)$", g)
+                return bool(m) and "min_iters" in m.group(1) and ".iters" in m.group(2) and v is True
+            has_eq = any(is_eq(g, v) for g, v in gs)
+            has_gt = any(is_gt(g, v) for g, v in gs)
             if not (has_eq and has_gt):
                 continue
-            others = [(g, v) for g, v in gs if not ((("entry ==" in g) or (".entry" in g and "==" in g)) and v is True)
-                      and not (".iters >" in g and "min_iters" in g and v is True)
-                      and not (g == "is_initial_entry" and v is False)]
+            others = [(g, v) for g, v in gs if not is_eq(g, v) and not is_gt(g, v) and not (g == "is_initial_entry" and v is False)]
             if not others:
                 found = gs
                 break
@@ -110,7 +116,7 @@ def check_iterbudget(facts):
             if not symex.contains_call(cm[0][1][2], {"with_scm_loop_impl"}):
                 bad = "with_scm_compute_max does not start from the position with_scm_loop_impl returned (line %s)" % cm[0][2]
                 break
-        gs = [(symex.show(g), v) for g, v in p.guards]
+        gs = symex.cguards(p)
         if symex.lin(total) == symex.lin(MAX):
             continue
         if symex.lin(total) == symex.lin(MIN) and ("min < max", False) in gs:
@@ -317,7 +323,7 @@ def check_asciifold(facts):
         return r
     got = {}
     for p in paths:
-        gs = [(symex.show(g), v) for g, v in p.guards]
+        gs = symex.cguards(p)
         got[tuple(gs)] = symex.show(p.ret)
     want = {(("unicode", True),): "to_ascii_lowercase(c)", (("unicode", False),): "to_ascii_uppercase(c)"}
     # the non-ASCII siblings must go through fold_code_point(c, unicode) with the flag passed on
@@ -695,6 +701,22 @@ def check_asciiguard(facts):
 
 # ---- KEEPLIVE -------------------------------------------------------------------------------
 
+def _arm_access(s):
+    """The place `(*arm)..` a statement takes a mutable reference to, or copies the box pointer out of (both are how the
+    surviving arm of an Alt is reached: `&mut *right`, `mem::swap(.., &mut *right)`, `let survivor: &mut Node = right`)."""
+    if s["k"] != "assign":
+        return None
+    rv = s["rv"]
+    pl = None
+    if rv["k"] == "ref" and rv.get("m") == "mut":
+        pl = rv["pl"]
+    elif rv["k"] == "use" and rv["op"].get("k") in ("copy", "move"):
+        pl = rv["op"]["pl"]
+    if pl is not None and pl["p"][:1] == ["*"]:
+        return pl
+    return None
+
+
 def check_keeplive(facts):
     r = RuleResult("KEEPLIVE", "optimizer::propagate_early_fails: where one arm of an Alt is selected by a branch on `X.match_always_fails()`, "
                                "the arm kept on the true edge is never X itself and the arm kept on the false edge is X (the surviving arm "
@@ -753,10 +775,9 @@ def check_keeplive(facts):
             out = set()
             for x in region:
                 for s in b.blocks[x]["s"]:
-                    if s["k"] == "assign" and s["rv"]["k"] == "ref" and s["rv"]["m"] == "mut":
-                        pl = s["rv"]["pl"]
-                        if pl["l"] in arms and pl["p"][:1] == ["*"]:
-                            out.add(pl["l"])
+                    pl = _arm_access(s)
+                    if pl is not None and pl["l"] in arms:
+                        out.add(pl["l"])
             return out
         kt, kf = taken(reg_t), taken(reg_f)
         if not kt and not kf:
@@ -771,12 +792,16 @@ def check_keeplive(facts):
             r.ok(key, "true edge keeps %s, false edge keeps %s" % (sorted(b.local_name(x) for x in kt), sorted(b.local_name(x) for x in kf)))
     if n == 0:
         # no selection at all: is an arm still taken?
+        flag_blocks = [b.single_def(l)[0] for l in flags]
+        dom = b.dom()
         for bi, i, s in b.iter_stmts():
-            if s["k"] == "assign" and s["rv"]["k"] == "ref" and s["rv"]["m"] == "mut" and s["rv"]["pl"]["l"] in arms \
-                    and s["rv"]["pl"]["p"][:1] == ["*"]:
+            apl = _arm_access(s)
+            if bi in flag_blocks or not all(fb in dom[bi] for fb in flag_blocks):
+                continue  # receivers of the match_always_fails() calls themselves
+            if apl is not None and apl["l"] in arms and not (s["rv"]["k"] == "ref" and s["rv"].get("m") != "mut"):
                 r.fail("%s selection on match_always_fails()" % fn, "an arm of the alternation (`%s`) is taken unconditionally (line %s) although "
                        "which arm survives depends on match_always_fails(): the arm that can never match may be kept" % (
-                           b.local_name(s["rv"]["pl"]["l"]), s["line"]), facts.loc(fn, s["line"]))
+                           b.local_name(apl["l"]), s["line"]), facts.loc(fn, s["line"]))
                 n += 1
                 break
     r.floor("arm_selections", n, 1)
